@@ -88,6 +88,7 @@ type executor struct {
 	decisions int
 	wroteIndented bool
 	venv *venv
+	mapOrder int
 	evlog []outRec // environment events (stdout writes, file writes...) in order
 }
 
@@ -102,6 +103,10 @@ func (e *executor) feasible(c term) string {
 	e.sv.send("(push)")
 	e.sv.send("(assert " + c.s + ")")
 	r := e.sv.checkSat()
+	if r == "unknown" {
+		// one retry: timeouts under machine load are the usual cause
+		r = e.sv.checkSat()
+	}
 	e.sv.send("(pop)")
 	return r
 }
